@@ -33,6 +33,7 @@ type World struct {
 	caseHooks     []func(*Frame, *State, *Contract) []namedCase
 	caseFactHooks []func(*Frame, *State, *Contract, string)
 	knownCases  map[string][]string // function -> input classes of its known findings
+	externOld    map[string]bool   // extern methods whose reference results existed before the call
 	externPure   map[string]bool   // extern methods whose result is a function of receiver and arguments (getters)
 	externFresh  map[string]bool   // extern methods whose reference results are fresh allocations
 	externFrames map[string]string // interface methods of components outside the verified code (assumed frame-only)
@@ -52,7 +53,7 @@ type World struct {
 func NewWorld(repo string) *World {
 	w := &World{repo: repo, pkgs: map[string]*ssa.Package{}, byFn: map[*ssa.Function]*Contract{}, specFns: map[string]*SpecFn{},
 		typeTags: map[string]int{}, tagTypes: map[int]types.Type{}, models: map[string]Model{}, modelWrites: map[string][]string{},
-		preHooks: map[string]func(*Frame, *State){}, inlined: map[string]bool{}, assumedSet: map[string]bool{}, externFrames: map[string]string{}, externFresh: map[string]bool{}, externPure: map[string]bool{}, ctUses: map[string]bool{},
+		preHooks: map[string]func(*Frame, *State){}, inlined: map[string]bool{}, assumedSet: map[string]bool{}, externFrames: map[string]string{}, externFresh: map[string]bool{}, externPure: map[string]bool{}, externOld: map[string]bool{}, ctUses: map[string]bool{},
 		globalIDs: map[*ssa.Global]int{}, loopCache: map[*ssa.Function]*LoopInfo{},
 		replayHooks: map[string]func(*World, checkOpts, *Obligation) *ReplayResult{}}
 	registerModels(w)
